@@ -291,7 +291,9 @@ impl<const N: usize> World<N> {
                     _ => {}
                 }
             }
-            self.check_inflight_in_snapshot(&a.snapshot, i, Some(token));
+            // The new entry is not in `outs` yet: every chain there was published earlier and must
+            // stay as it was, also when the new submission (wrongly) reuses its head.
+            self.check_inflight_in_snapshot(&a.snapshot, i, None);
         }
         if let Some(p) = published_at {
             if let Some(later) = self.accesses.iter().enumerate().skip(p + 1).find(|(_, a)| a.write) {
